@@ -34,16 +34,16 @@ def classes():
     return {
         "nmutils.A": nmutils.A, "nmutils.nmutils": nmutils.nmutils, "nmutils.Outer.Nested": nmutils.Outer.Nested,
         "nmutils.Outer.Nested.Deeper": nmutils.Outer.Nested.Deeper, "nmpkg.nmutils.B": pn.B, "nmpkg.nmutils.Outer2.Nested2": pn.Outer2.Nested2,
-        "nmfoo.Baz": nmfoo.Baz, "barnmfoo.Qux": barnmfoo.Qux, "mytyping.Lst": mytyping.Lst, "mytyping.HasNoneTypeInName": mytyping.HasNoneTypeInName,
+        "nmfoo.Baz": nmfoo.Baz, "barnmfoo.Qux": barnmfoo.Qux, "mytyping.Lst": mytyping.Lst, "mytyping.HasNoneTypeInName": mytyping.HasNoneTypeInName, "mytyping.EllipsisMark": mytyping.EllipsisMark, "mytyping.EllipsisMark.Ellipsis": mytyping.EllipsisMark.Ellipsis,
         "fxh.Base": fxh.Base, "fxh.Outer.Inner": fxh.Outer.Inner, "own.Own": nmtarget.Own, "own.Own.OwnNested": nmtarget.Own.OwnNested,
         "io.StringIO": _io_mod.StringIO, "io.BytesIO": _io_mod.BytesIO, "io.IOBase": _io_mod.IOBase, "io.UnsupportedOperation": _io_mod.UnsupportedOperation, "int": int, "str": str, "None": type(None), "float": float, "bytes": bytes,
     }
 
 
 CLASS_NAMES = ["nmutils.A", "nmutils.nmutils", "nmutils.Outer.Nested", "nmutils.Outer.Nested.Deeper", "nmpkg.nmutils.B", "nmpkg.nmutils.Outer2.Nested2",
-               "nmfoo.Baz", "barnmfoo.Qux", "mytyping.Lst", "mytyping.HasNoneTypeInName", "fxh.Base", "fxh.Outer.Inner", "own.Own", "own.Own.OwnNested",
+               "nmfoo.Baz", "barnmfoo.Qux", "mytyping.Lst", "mytyping.HasNoneTypeInName", "mytyping.EllipsisMark", "mytyping.EllipsisMark.Ellipsis", "fxh.Base", "fxh.Outer.Inner", "own.Own", "own.Own.OwnNested",
                "io.StringIO", "io.BytesIO", "io.IOBase", "io.UnsupportedOperation", "int", "str", "None", "float", "bytes"]
-leaf = st.one_of(st.sampled_from(CLASS_NAMES).map(lambda n: ["c", n]), st.sampled_from(CLASS_NAMES[:14]).map(lambda n: ["c", n]),
+leaf = st.one_of(st.sampled_from(CLASS_NAMES).map(lambda n: ["c", n]), st.sampled_from(CLASS_NAMES[:16]).map(lambda n: ["c", n]),
                  st.sampled_from([["Any"], ["Callable"], ["Tuple0"], ["Iterator", ["Any"]]]))
 FIELDS = ["alpha", "beta", "gamma", "a", "b"]
 
@@ -56,7 +56,7 @@ def ext(sub):
         sub.map(lambda t: ["List", t]), sub.map(lambda t: ["Set", t]),
         st.tuples(sub, sub).map(lambda p: ["Dict", p[0], p[1]]), st.tuples(sub, sub).map(lambda p: ["DefaultDict", p[0], p[1]]),
         st.lists(sub, min_size=1, max_size=3).map(lambda l: ["Tuple", l]), sub.map(lambda t: ["TupleEllipsis", t]),
-        st.sampled_from(CLASS_NAMES[:14]).map(lambda n: ["Type", n]), sub.map(lambda t: ["Iterator", t]),
+        st.sampled_from(CLASS_NAMES[:16]).map(lambda n: ["Type", n]), sub.map(lambda t: ["Iterator", t]),
         st.tuples(sub, sub).map(lambda p: ["Generator", p[0], ["c", "None"], p[1]]),
         st.lists(sub, min_size=2, max_size=4, unique_by=repr).map(lambda l: ["Union", l]),
         sub.map(lambda t: ["Union", [t, ["c", "None"]]]), td, td,
@@ -202,15 +202,18 @@ def has_kind(s, kind):
     return False
 
 
-FUNCS = ["f", "g", "gen", "T.m", "T.cm", "T.sm", "T.In.im"]
+FUNCS = ["f", "g", "gen", "T.m", "T.cm", "T.sm", "T.In.im", "h1", "h2", "ell"]
 
 
 def live_funcs():
     import nmtarget as t
-    return {"f": t.f, "g": t.g, "gen": t.gen, "T.m": t.T.m, "T.cm": t.T.cm.__func__, "T.sm": t.T.sm, "T.In.im": t.T.In.im}
+    return {"f": t.f, "g": t.g, "gen": t.gen, "T.m": t.T.m, "T.cm": t.T.cm.__func__, "T.sm": t.T.sm, "T.In.im": t.T.In.im, "h1": t.h1, "h2": t.h2, "ell": t.ell}
 
 
 trace_spec = st.tuples(st.sampled_from(FUNCS), st.lists(types, max_size=2), st.one_of(st.none(), types), st.one_of(st.none(), st.none(), types)).map(list)
+# two functions with IDENTICAL signatures (h1 / h2) traced with the very same types, a class of the target module among them
+own_or_any = st.one_of(st.sampled_from([["c", "own.Own"], ["List", ["c", "own.Own"]], ["c", "own.Own.OwnNested"]]), types)
+twin_traces = st.tuples(own_or_any, st.one_of(st.none(), own_or_any)).map(lambda p: [["h1", [p[0]], p[1], None], ["h2", [p[0]], p[1], None]])
 
 
 def td_under_undescended(T, under=False):
@@ -541,7 +544,9 @@ def shard(ctx):
     q = ctx.tier == "quick"
 
     def factory(ctx):
-        @given(st.lists(trace_spec, min_size=1, max_size=3), st.sampled_from([0, 10]), st.sampled_from(["traces", "traces", "index-builder"]))
+        @given(st.one_of(st.lists(trace_spec, min_size=1, max_size=3), st.lists(trace_spec, min_size=1, max_size=3),
+                         st.tuples(twin_traces, st.lists(trace_spec, max_size=2)).map(lambda p: p[1][:1] + p[0] + p[1][1:])),
+               st.sampled_from([0, 10]), st.sampled_from(["traces", "traces", "index-builder"]))
         def test(tspecs, k, route):
             check(ctx, tspecs, k, route)
         return test
